@@ -79,10 +79,35 @@ class Engine(StmtMixin):
 
             env["self"] = Rec(self.cur_class)  # the object under construction
         is_gen = any(isinstance(n, (ast.Yield, ast.YieldFrom)) for n in _own_nodes(fn))
-        st = State(dict(env), [], z3.Empty(U.SeqV) if is_gen else None, "code")
+        code_env = dict(env)
+        pre = []
+        mut = dict(getattr(c, "mutates", None) or {})
+        for name, cls in mut.items():
+            # an object the function updates in place: the body works on a record of its fields (initially the
+            # entry values), the postconditions read the record at exit as `name` and the entry object as `name0`
+            if name not in env or not isinstance(env[name], T):
+                raise Unsupported(f"mutates: no parameter {name}")
+            code_env[name] = self.rec_of(cls, env[name].t)
+            if name != "self":
+                pre.append(self.isinstance_term(env[name], Cls(cls)))
+        st = State(code_env, [], z3.Empty(U.SeqV) if is_gen else None, "code")
         st.ghost["entry"] = dict(env)
         spec_st = State(dict(env), [], None, "spec")
-        pre = []
+        for f in pre:
+            spec_st = spec_st.fork(f)
+
+        def exit_env(s):
+            from .expr import Rec
+
+            e2 = dict(env)
+            for name in list(mut) + (["self"] if isinstance(env.get("self"), Rec) else []):
+                cur = s.env.get(name)
+                if isinstance(cur, Rec):
+                    e2[name] = T("V", self.rec_term(cur))
+                if isinstance(env.get(name), T):
+                    e2[name + "0"] = env[name]
+            return e2
+
         if self.cur_class and "self" in env and isinstance(env["self"], T) and not any(
                 isinstance(d, ast.Name) and d.id == "staticmethod" for d in fn.decorator_list):
             # dynamic dispatch: a method body only ever runs with self an instance of its class
@@ -111,7 +136,7 @@ class Engine(StmtMixin):
             if tag in (NORMAL, RETURN):
                 exits["normal"] += 1
                 val = p if tag == RETURN and p is not None else T("V", U.none)
-                ps = State(dict(env), s.pc, None, "spec", None, dict(s.ghost))
+                ps = State(exit_env(s), s.pc, None, "spec", None, dict(s.ghost))
                 if is_gen:
                     ps.env["out"] = T("list", s.out)
                     for idx, cl in enumerate(c.yields):
@@ -123,16 +148,21 @@ class Engine(StmtMixin):
                     ps.env["result"] = val
                     for idx, cl in enumerate(c.ensures):
                         self.oblige(s, f"post#{idx}", self.truthy(self.ev1(c.parsed(cl), ps)), cl)
+                es = State(dict(env), s.pc, None, "spec", None, dict(s.ghost))  # conditions are over entry values
                 for ecls, cond in c.raises_iff:
-                    self.oblige(s, f"raises-iff:{ecls}:returned", z3.Not(self.truthy(self.ev1(c.parsed(cond), ps))), cond)
+                    self.oblige(s, f"raises-iff:{ecls}:returned", z3.Not(self.truthy(self.ev1(c.parsed(cond), es))), cond)
             elif tag == RAISE:
                 exits["raise"] += 1
-                ps = State(dict(env), s.pc, None, "spec", None, dict(s.ghost))
+                ps = State(exit_env(s), s.pc, None, "spec", None, dict(s.ghost))
+                ps.env["exc"] = T("V", p)
+                for idx, cl in enumerate(getattr(c, "raises_ensures", ())):
+                    self.oblige(s, f"raises-post#{idx}", self.truthy(self.ev1(c.parsed(cl), ps)), cl)
                 allowed = list(c.raises) + [e for e, _ in c.raises_iff]
                 goal = z3.Or(*[U.isinstance_exc(p, a) for a in allowed]) if allowed else z3.BoolVal(False)
                 self.oblige(s, "raises", goal, f"only {allowed} may escape")
+                es = State(dict(env), s.pc, None, "spec", None, dict(s.ghost))
                 for ecls, cond in c.raises_iff:
-                    self.oblige(s, f"raises-iff:{ecls}:raised", z3.Implies(U.isinstance_exc(p, ecls), self.truthy(self.ev1(c.parsed(cond), ps))), cond)
+                    self.oblige(s, f"raises-iff:{ecls}:raised", z3.Implies(U.isinstance_exc(p, ecls), self.truthy(self.ev1(c.parsed(cond), es))), cond)
                 if is_gen:
                     ps.env["result"] = T("V", U.con("VGen", s.out if s.out is not None else z3.Empty(U.SeqV), p))
                     for idx, cl in enumerate(c.ensures):
@@ -338,13 +368,13 @@ class Engine(StmtMixin):
                 if t.num_args() and t.sort() == self.V:
                     goal_terms.add(t.get_id())
                 stack.extend(t.children())
-        if not goal_terms:
-            return []
         self.speclib.declare_all()
         by_decl = {d.name(): n for n, d in self.speclib.decls.items()}
         out = []
         for a in self.speclib._apps(forms, by_decl):
-            if any(a.arg(i).get_id() in goal_terms for i in range(a.num_args())):
+            name = by_decl[a.decl().name()]
+            # ... and the applications of the predicates this contract reveals (`unfold=[...]`): few, and asked for
+            if (name in self.speclib.revealed and name in self.speclib.opaque) or any(a.arg(i).get_id() in goal_terms for i in range(a.num_args())):
                 out.append(a)
         return out
 
